@@ -174,7 +174,10 @@ def replay_case(case, env, extra_judge=None):
 
 
 def worker_init(env):
+    import gc
     Wd.capture_streams()
+    gc.collect()
+    gc.freeze()
 
 
 def chunked(it, n):
@@ -186,3 +189,17 @@ def chunked(it, n):
             buf = []
     if buf:
         yield buf
+
+
+def ladder_jobs(ladder, menu, cats, spec):
+    """ladder entries: (max size n, max deviations k, conventions[, spec overrides])"""
+    for ent in ladder:
+        n, k, convs = ent[0], ent[1], ent[2]
+        over = ent[3] if len(ent) > 3 else {}
+        chunk = 400 if k == 0 else (6 if k == 1 else 1)
+        for size in range(1, n + 1):
+            for bases in chunked(gen.base_programs(size), chunk):
+                j = {"bases": bases, "menu": menu if k else [], "k": k, "convs": convs, "cats": cats}
+                j.update(spec)
+                j.update(over)
+                yield j
